@@ -327,6 +327,178 @@ def adjacent_blocks(report, scen, rng):
         report.count("adjacent_block_filters")
 
 
+# ---------------------------------------------------------------------------------------------------------------------------
+# chained plans, both orders.  A filter that names tag values next to authors and / or kinds is served by a chain of index
+# scans; *which* index is walked first and which only confirms candidates is decided by the planner from the number of values
+# each condition names.  The filters of gen.gen_filter name at most three values per field, which fixes one order for every
+# chained plan.  The family below draws the widths over a generous range instead — author x kind products from 1 to several
+# dozen, and single lists of up to several hundred values (a follow list of a few hundred authors, or "every kind I render",
+# is ordinary client behaviour) — so that, whatever weights the planner gives its indexes, each chained plan is exercised in
+# both orders; the evidence counts them apart (distribution: kv_index_multi(first,second)).  The stores are built for the
+# second position: the index that only confirms candidates is one in which an event may own SEVERAL entries (the tag index:
+# one per tag), so the stores hold events that carry two or three of the requested values, values that extend one another,
+# events with one requested value, candidates with none, and they spread all of them over few timestamps so that every kind
+# of event sorts both above and below the others inside the index.  The oracle is the property as it stands: every strictly
+# matching stored event delivered, once, when the limit does not truncate.
+WIDE_FAMILIES = [["x", "y", "z", "w"], ["a", "ab", "abc", "abcd"], ["a", "ab", "b", "bc"], ["x", "xy", "y", "q"], ["nostr", "relay", "nos", "re"]]
+WIDE_KINDS = [1, 2, 4, 6, 7, 16, 1111, 9735, 9999, 40000, 65535]           # regular kinds: nothing replaces anything
+WIDE_LIST = (40, 120, 250, 450, 700)                                         # how many further values a "long list" gets
+WIDE_STEPS = [0, 0, 1, 2, 50, 100, 255, 256, 257]
+
+
+def many_authors(rng, n):
+    return [rng.randbytes(32).hex() for _ in range(n)]
+
+
+def many_kinds(rng, n, avoid=()):
+    # regular range only (1000 ... 9999), none of them stored
+    return [k for k in rng.sample(range(1000, 9999), n) if k not in avoid]
+
+
+def ask_both_backends(report, scen, f):
+    for rec in (scen.ask_kv(dict(f)), scen.ask_sql([dict(f)])):
+        oracle(report, scen, rec)
+        record(report, rec)
+        if rec is not None and rec["backend"] == "kv" and str(rec.get("index")).startswith("multi("):
+            report.count("chained_plan_answers")
+            if len(rec["spec_strict"]) > 1 and not (rec.get("limit") is not None and len(rec["spec_incl"]) > rec["limit"]):
+                report.count("chained_plan_answers_with_2+_owed_events")
+
+
+def wide_store(rng, authors, kinds, conds):
+    """conds: [(tag name, requested values)].  Events by the requested authors / kinds (mostly), each with none, one, two or
+    three of the requested values of the first condition, with values outside the request (an extension of a requested value
+    among them), under few timestamps"""
+    name, vals = conds[0]
+    evs = []
+    for i in range(rng.randint(3, 14)):
+        r = rng.random()
+        if r < 0.35:
+            mine = rng.sample(vals, min(len(vals), rng.choice([2, 2, 3])))
+        elif r < 0.75:
+            mine = [rng.choice(vals)]
+        elif r < 0.9:
+            mine = [rng.choice(["other", rng.choice(vals) + rng.choice(["x", "0", " "])])]
+        else:
+            mine = []
+        if mine and rng.random() < 0.25:
+            mine.append(rng.choice(["other", rng.choice(vals) + "z"]))
+        rng.shuffle(mine)
+        tags = [[name, v] for v in mine]
+        for n2, v2 in conds[1:]:
+            if rng.random() < 0.75:
+                tags.insert(rng.randrange(len(tags) + 1), [n2, rng.choice(v2)])
+        evs.append({"id": gen.mkid(rng), "pubkey": rng.choice(authors) if rng.random() < 0.9 else gen.AUTHORS[6],
+                    "created_at": gen.T0 + rng.choice(WIDE_STEPS), "kind": rng.choice(kinds) if rng.random() < 0.9 else 3,
+                    "tags": tags, "content": "", "sig": "00" * 64})
+    ids = set()
+    for e in evs:
+        while e["id"] in ids:
+            e["id"] = gen.mkid(rng)
+        ids.add(e["id"])
+    return evs
+
+
+def wide_chained(report, scen, rng):
+    """directed: one store, the same tag conditions next to author / kind conditions of every width"""
+    authors = rng.sample(gen.AUTHORS[:6], rng.choice([1, 2, 3, 4, 5]))
+    kinds = rng.sample(WIDE_KINDS, rng.choice([1, 2, 3, 4, 6]))
+    fam = rng.choice(WIDE_FAMILIES)
+    name = rng.choice(["t", "t", "t", "e", "g"])
+    conds = [(name, rng.sample(fam, rng.choice([2, 2, 3, 4])))]
+    if rng.random() < 0.3:
+        # a second tag name: its values go into the same index scan as the first one's
+        conds.append((rng.choice([n for n in ["t", "p", "r"] if n != name]), rng.sample(["v1", "v2", "v"], rng.choice([1, 2]))))
+    evs = wide_store(rng, authors, kinds, conds)
+    scen.load(evs)
+    tagc = {"#" + n: list(v) for n, v in conds}
+    cut = gen.T0 + rng.choice([0, 1, 2, 50, 100, 255, 256])
+    extra_a, extra_k = rng.choice(WIDE_LIST), rng.choice(WIDE_LIST)
+    fs = [{"authors": authors, "kinds": kinds, **tagc},
+          {"authors": authors, "kinds": kinds, **tagc, "until": cut},
+          {"authors": authors[:1], "kinds": kinds[:1], **tagc},
+          {"authors": authors + many_authors(rng, rng.choice([1, 2, 4])), "kinds": kinds + many_kinds(rng, rng.choice([1, 3, 6]), kinds), **tagc},
+          {"authors": authors, **tagc},
+          {"kinds": kinds, **tagc},
+          {"authors": authors + many_authors(rng, extra_a), **tagc},
+          {"kinds": kinds + many_kinds(rng, extra_k, kinds), **tagc},
+          {"authors": authors, "kinds": kinds, "#" + name: conds[0][1][:1]},
+          {"authors": authors, "kinds": kinds, **tagc, "since": cut}]
+    for f in fs:
+        lim = rng.choice([None, None, None, None, 100, 500, 3])
+        if lim is not None:
+            f["limit"] = lim
+        for k in ("authors", "kinds"):
+            if k in f:
+                f[k] = list(f[k])
+                rng.shuffle(f[k])
+        ask_both_backends(report, scen, f)
+        report.count("wide_chained_directed_filters")
+    report.count("wide_chained_directed_stores")
+
+
+def gen_wide_filter(rng, evs):
+    """the random generator's wide sibling: a conjunction over the values of a random store (qscen.gen_store) that names MANY
+    authors and / or kinds next to two or more tag values — preferably values that one stored event carries together"""
+    f = {}
+    by_name = {}
+    together = []
+    for e in evs:
+        mine = {}
+        for t in e["tags"]:
+            if len(t) >= 2 and len(t[0]) == 1 and isinstance(t[1], str):
+                by_name.setdefault(t[0], set()).add(t[1])
+                mine.setdefault(t[0], set()).add(t[1])
+        together += [(n, sorted(v)) for n, v in sorted(mine.items()) if len(v) > 1]
+    if together and rng.random() < 0.7:
+        name, vs = rng.choice(together)
+        vals = rng.sample(vs, 2)
+    elif by_name:
+        name = rng.choice(sorted(by_name))
+        pool = sorted(by_name[name])
+        vals = rng.sample(pool, min(len(pool), 2))
+    else:
+        name, vals = "t", ["a", "ab"]
+    pool = sorted(by_name.get(name, ())) + gen.FAMILY
+    for _ in range(rng.choice([0, 0, 1, 2])):
+        vals.append(rng.choice(pool))
+    f["#" + name] = vals
+    if rng.random() < 0.2:
+        others = sorted(n for n in by_name if n != name)
+        if others:
+            n2 = rng.choice(others)
+            f["#" + n2] = [rng.choice(sorted(by_name[n2]))]
+    authors = sorted({e["pubkey"] for e in evs}) + rng.sample(gen.AUTHORS[4:], rng.choice([0, 1, 3]))
+    kinds = sorted({e["kind"] for e in evs} | set(rng.sample(gen.KINDS, rng.choice([0, 2, 4]))))
+    shape = rng.choice(["ak", "ak", "ak", "a", "k"])
+    if shape == "ak":
+        f["authors"], f["kinds"] = authors, kinds
+    elif shape == "a":
+        f["authors"] = authors + many_authors(rng, rng.choice(WIDE_LIST))
+    else:
+        f["kinds"] = sorted(set(kinds + many_kinds(rng, rng.choice(WIDE_LIST))))
+    for k in ("authors", "kinds"):
+        if k in f:
+            rng.shuffle(f[k])
+    r = rng.random()
+    if r < 0.25 and evs:
+        f["until"] = rng.choice(evs)["created_at"] + rng.choice([-1, 0, 1, 256])
+    elif r < 0.33 and evs:
+        f["since"] = max(0, rng.choice(evs)["created_at"] + rng.choice([-1, 0, 1, -256]))
+    lim = rng.choice([None, None, None, None, 100, 500, 3])
+    if lim is not None:
+        f["limit"] = lim
+    return f
+
+
+def wide_random(report, scen, rng, adversarial=False):
+    evs = qscen.gen_store(rng, adversarial=adversarial)
+    scen.load(evs)
+    for k in range(6):
+        ask_both_backends(report, scen, gen_wide_filter(rng, evs))
+        report.count("wide_chained_random_filters")
+
+
 def validation_cases(report, drv, rng, n):
     """the front end: what NostrQuery validation makes of the ids / authors / kinds a client sends (any spelling, duplicates,
     over-long, too short, not hex, non-ASCII) vs Model/Validate.lean — the theorems of Props/C02Validate.lean (validated strings
@@ -399,7 +571,10 @@ def run(report, tier, seed):
         "conjunctive filters built from stored values with since/until at -1/0/+1 of stored timestamps and limits "
         "0/1/2/3/5/100/default; LMDB: one plan per filter (every planner index is reported in the distribution); "
         "SQL: REQs of 1-2 filters; reference answer = Lean matchesSpec (strict reading must be delivered, inclusive "
-        "reading bounds the count); non-trivial = at least one stored event strictly matches")
+        "reading bounds the count); non-trivial = at least one stored event strictly matches; chained plans in both "
+        "orders: tag conditions (2-4 values, prefix-related, one or two names) next to 1-12 authors x 1-12 kinds and next "
+        "to single lists of 40-700 authors / kinds, over stores whose events carry 0-3 of the requested values under few "
+        "timestamps (directed) and over the random stores (wide sibling of the filter generator)")
     report.assumptions += [
         "empty filters ({} or only a limit) are refused by policy on both backends and are outside the property's "
         "'well-formed conjunction' domain, as are ids/authors that are not 64 hex digits and `search`",
@@ -418,6 +593,11 @@ def run(report, tier, seed):
         for i in range(10 if tier == "quick" else 150):
             adjacent_blocks(report, scen, rng)
         validation_cases(report, drv, rng, 300 if tier == "quick" else 6000)
+        # (after everything else, so that the cases above are the same as before for a given seed)
+        for i in range(24 if tier == "quick" else 500):
+            wide_chained(report, scen, rng)
+        for i in range(16 if tier == "quick" else 300):
+            wide_random(report, scen, rng, adversarial=i % 4 == 3)
         if tier == "thorough":
             exhaustive(report, scen)
     finally:
